@@ -165,6 +165,13 @@ def run(ctx):
     ok = any(isinstance(n, ast.JoinedStr) and "once(now" in norm(n) and "timeout" in norm(n) for n in body_walk(f5))
     ctx.check(ok, "R15.3", "decorator.py::WaitUntilDecoratorManager.__init__", "timeout implemented as once(now + timeout)",
               msg="the timeout decorator is no longer built from once(now + <timeout>s)", key="timeout decorator spec", node=f5, rel="decorator.py")
+    ctx.rule("R15.7", "wait_until with state_hold returns the arguments of the event that started the hold (new subsystem, both expiry paths)", floor=2)
+    from .c05 import hold_expiry_rule
+    hold_expiry_rule(ctx, program, "R15.7")
+
+    ctx.rule("R15.8", "the state subscription of a wait is released for every watched entity, whatever order the names come in (an entity named twice, a name without entity)", floor=20)
+    state_unsubscribe_table(ctx, program, "R15.8")
+
     ctx.rule("R15.5", "a manager that is stopped while its start loop is still running (the first trigger fired at once) starts no further trigger", floor=2)
     start_typestate(ctx, program, "R15.5")
 
@@ -236,3 +243,48 @@ def start_typestate(ctx, program, rid):
         ctx.check(bool(ex) and n_re >= n and full and bad is None, rid, uid, f"{n} triggers, stop possible inside each start",
                   msg=f"DecoratorManager.start with {n} triggers: {bad or f'paths explored: {len(ex)}, with re-entrant stop: {n_re}, undisturbed start seen: {full}'}",
                   key=f"start typestate {n}", node=program.func(uid), rel="decorator_abc.py")
+
+
+def state_unsubscribe_table(ctx, program, rid):
+    """State.notify_add followed by State.notify_del on every ordering of a name set that mentions entities more than once."""
+    import itertools
+    from ..absint import ClassV, DictV
+    add_uid, del_uid = "state.py::State.notify_add", "state.py::State.notify_del"
+    names = ("d.a", "d.a.old", "d.b", "d.b.attr", "plain")
+    n = 0
+    for order in itertools.permutations(names):
+        if order.index("d.a") > order.index("d.a.old") and order.index("d.b") > order.index("d.b.attr") and order[0] == "plain":
+            pass
+        n += 1
+        if n % 4:      # every 4th permutation: 30 orders
+            continue
+        var_names = ListV(tuple(Const(x) for x in order), "set")
+        q, q2 = ObjV("q", "Queue"), ObjV("q2", "Queue")
+        heap = {"State.notify": DictV([(Const("d.a"), DictV([(q2, ListV((Const("d.a"),), "set"))])), (Const("d.c"), DictV([(q2, ListV((Const("d.c"),), "set"))]))])}
+        pol = FlowPolicy(program, may_raise_all=False, cancel=False)
+        pol.loop_unroll = 8
+        o1 = run_flow(program, add_uid, pol, args={"cls": ClassV("State"), "var_names": var_names, "queue": q}, heap=heap)
+        bad = None
+        ex1 = exits(o1)
+        for k, c, d in ex1:
+            if k != "return":
+                bad = f"notify_add leaves with {d}"
+                continue
+            tab = c.heap.get("State.notify")
+            subscribed = sorted(e.v for e, qs in tab.items if isinstance(qs, DictV) and qs.get(q) is not None) if isinstance(tab, DictV) else None
+            if subscribed != ["d.a", "d.b"]:
+                bad = f"notify_add subscribes the queue to {subscribed}, the names mention the entities ['d.a', 'd.b']"
+                continue
+            o2 = run_flow(program, del_uid, pol, args={"cls": ClassV("State"), "var_names": var_names, "queue": q}, heap=dict(c.heap))
+            for k2, c2, d2 in exits(o2):
+                tab2 = c2.heap.get("State.notify")
+                left = sorted(e.v for e, qs in tab2.items if isinstance(qs, DictV) and qs.get(q) is not None) if isinstance(tab2, DictV) else None
+                other = sorted(e.v for e, qs in tab2.items if isinstance(qs, DictV) and qs.get(q2) is not None) if isinstance(tab2, DictV) else None
+                if k2 != "return":
+                    bad = f"notify_del leaves with {d2}"
+                elif left:
+                    bad = f"after notify_del the queue is still subscribed to {left}: every later change of that entity is queued for a wait that has ended"
+                elif other != ["d.a", "d.c"]:
+                    bad = f"another queue's subscriptions changed to {other}"
+        ctx.check(bool(ex1) and bad is None, rid, del_uid, f"names in the order {list(order)}", msg=f"State.notify_add/notify_del with the names {list(order)}: {bad or 'no exit'}",
+                  key=f"state unsubscribe {order}", node=program.func(del_uid), rel="state.py")
